@@ -673,6 +673,60 @@ pub fn run(args: &Args) {
     }
 }
 
+/// Objects whose `Drop` emits a method emit it also when they go out of scope because the code
+/// holding them panics (own probe and channel: if the method is missing, its preloaded reply
+/// stays behind and must not disturb the rest of the table).
+fn drops_while_unwinding(cx: &mut Ctx) {
+    let chan = cx.chan + 2;
+    let (probe, ch) = ChannelProbe::open(131072, chan, 64);
+    let _ = probe.tap();
+    let (tx, rx) = ChannelProbe::consumer_pair();
+    probe.preload(Reply::ConsumeOk("qu".into(), rx));
+    let a = json!({"dropped": "while unwinding"});
+    let mut judge = |cx: &mut Ctx, op: &str, taps: Vec<TapMsg>, want: AMQPClass| {
+        cx.part.evaluations += 1;
+        cx.part.distinct_nontrivial += 1;
+        cx.part.outcome(op);
+        let want_bytes = vh::wire::frame_bytes(&AMQPFrame::Method(chan, want));
+        let ok = taps.len() == 1 && matches!(&taps[0], TapMsg::Send(b) if *b == want_bytes);
+        if !ok {
+            cx.part.violation(&format!("api:{}:while-unwinding", op), format!("{}({}): {} messages handed to the I/O thread: {:?}", op, a, taps.len(), taps.iter().map(|t| format!("{:?}", t).chars().take(80).collect::<String>()).collect::<Vec<_>>()), json!({"engine":"seqx","check":"api","op":op,"args":a}));
+        }
+    };
+    match ch.basic_consume("q", ConsumerOptions::default()) {
+        Ok(c) => {
+            let _ = probe.tap();
+            probe.preload(Reply::Method(AMQPClass::Basic(basic::AMQPMethod::CancelOk(basic::CancelOk { consumer_tag: "qu".into() }))));
+            let _ = std::panic::catch_unwind(std::panic::AssertUnwindSafe(move || {
+                let _held = c;
+                panic!("holder failed");
+            }));
+            let taps = probe.tap();
+            judge(cx, "Consumer::drop", taps, AMQPClass::Basic(basic::AMQPMethod::Cancel(basic::Cancel { consumer_tag: "qu".into(), nowait: false })));
+        }
+        Err(e) => cx.check("Channel::basic_consume", &a, false, format!("{:?}", e)),
+    }
+    drop(tx);
+    // the channel itself: Channel.Close (a second probe, the first may hold a stale reply)
+    std::mem::forget(ch);
+    let (probe, ch) = ChannelProbe::open(131072, chan + 1, 64);
+    let chan = chan + 1;
+    let _ = probe.tap();
+    probe.preload(Reply::Method(AMQPClass::Channel(channel::AMQPMethod::CloseOk(channel::CloseOk {}))));
+    let _ = std::panic::catch_unwind(std::panic::AssertUnwindSafe(move || {
+        let _held = ch;
+        panic!("holder failed");
+    }));
+    let taps = probe.tap();
+    let want_bytes = vh::wire::frame_bytes(&AMQPFrame::Method(chan, AMQPClass::Channel(channel::AMQPMethod::Close(channel::Close { reply_code: 0, reply_text: "".into(), class_id: 0, method_id: 0 }))));
+    cx.part.evaluations += 1;
+    cx.part.distinct_nontrivial += 1;
+    cx.part.outcome("Channel::drop");
+    if !(taps.len() == 1 && matches!(&taps[0], TapMsg::Send(b) if *b == want_bytes)) {
+        cx.part.violation("api:Channel::drop:while-unwinding", format!("Channel::drop({}): {} messages handed to the I/O thread", a, taps.len()), json!({"engine":"seqx","check":"api","op":"Channel::drop","args":a}));
+    }
+}
+
 fn run_inner(args: &Args) {
     std::panic::set_hook(Box::new(|_| {}));
     let chan = 5u16;
@@ -683,6 +737,7 @@ fn run_inner(args: &Args) {
     cx.expect_one("Connection::open_channel", json!({"id":chan}), AMQPClass::Channel(channel::AMQPMethod::Open(channel::Open { out_of_band: "".into() })));
     run_table(&mut cx, &ch);
     cross_channel_handles(&mut cx, &ch);
+    drops_while_unwinding(&mut cx);
     // Channel::close
     cx.preload_method(AMQPClass::Channel(channel::AMQPMethod::CloseOk(channel::CloseOk {})));
     let r = ch.close();
@@ -712,6 +767,7 @@ pub fn replay(v: &Value) -> bool {
     let mut cx = Ctx { probe, chan, part: Part::new("C12", "api", "seqx", "exploration", "quick") };
     let _ = cx.probe.tap();
     run_table(&mut cx, &ch);
+    drops_while_unwinding(&mut cx);
     std::mem::forget(ch);
     let op = v["op"].as_str().unwrap_or("");
     let mut ok = true;
